@@ -177,6 +177,62 @@ def install_nondet(models, variants=None):
 NONDET = Adt("NondetParser", 0, ())
 
 
+# ------------------------------------------------------------------------------------------------
+# solver-chosen *deterministic* inner parser: a fixed set S of item indices it claims whenever they
+# are present and in scope, and a success rule.  Cheaper than NONDET (one path per choice of S, rule
+# and pre-state instead of an independent choice at every evaluation) and closer to real parsers,
+# which are functions of the state they are shown.
+
+DET_RULES = ("always", "all-of-S", "took-something", "first-of-S")
+
+
+def det_parser(ex, n):
+    S = tuple(i for i in range(n) if tok.choose_free(ex, 2, "det-claims") == 1)
+    rule = DET_RULES[tok.choose_free(ex, len(DET_RULES), "det-rule")]
+    return Adt("DetParser", 0, (S, rule))
+
+
+def install_det(models):
+    def m_eval(ex, c, args):
+        me = rda(args[0])
+        S, rule = me.fields
+        st_ref = args[1]
+        pre = rd(st_ref)
+        f = fields_of(ex, pre)
+        lo, hi = f["scope"].fields
+        pres = present_vec(ex, pre)
+        avail = []
+        for i in S:
+            if pres[i]:
+                ins = in_scope(lo, hi, i)
+                if ins is True or (ins is not False and ex.branch(ins, "det-scope")):
+                    avail.append(i)
+        if rule == "first-of-S":
+            # a group anchored at its first member: nothing is taken unless that member is there
+            ok = bool(S) and S[0] in avail
+            take = avail if ok else []
+        else:
+            take = avail
+            ok = {"always": True, "all-of-S": len(avail) == len(S), "took-something": bool(avail)}[rule]
+        for i in take:
+            ex.call(parse_callee("State::remove"), [st_ref, i])
+        call_no = sum(1 for x in ex.notes if x[0] == "inner")
+        res = OK(ex.fresh("detval", 32)) if ok else ERR(Adt("Error", 0, (mk_message(ex, "Missing", call_no),)))
+        ex.notes.append(("inner", pre, list(take), "ok" if ok else "Missing", res, rd(st_ref)))
+        return res
+    models["DetParser as Parser::eval"] = m_eval
+
+    def m_meta(ex, c, args):
+        L = ex.prog.layout
+        sl = Adt("ShortLong", L.variant_index("ShortLong", "Short"), (ord("x"),))
+        vi = L.variant_index("Item", "Flag")
+        fl = L.adts["Item"]["variants"][vi][1]
+        d = {"name": sl, "shorts": Seq((ord("x"),)), "env": NONE, "help": NONE}
+        item = Adt("Item", vi, tuple(d[f] for f in fl))
+        return Adt("Meta", L.variant_index("Meta", "Item"), (item,))
+    models["DetParser as Parser::meta"] = m_meta
+
+
 def ledger_equal(ex, a, b):
     """item_state / remaining / scope equal (z3 Bool or python bool)"""
     fa, fb = fields_of(ex, a), fields_of(ex, b)
